@@ -65,7 +65,7 @@ func refShouldBuild(content string, tags map[string]bool) bool {
 
 func TestVerifBoundedShouldBuild(t *testing.T) {
 	n := verifBound(4, 6)
-	lines := []string{"// +build linux\n", "// +build !linux,amd64 android\n", "// +build ignore\n", "\n", "// comment\n", "package p\n", "//+build windows\n", "// +build linux", "// +builder windows\n", "// +build linux, \n", " \t\n", "// +build ignore\r\n", "\r\n"}
+	lines := []string{"// +build linux\n", "// +build !linux,amd64 android\n", "// +build ignore\n", "\n", "// comment\n", "package p\n", "//+build windows\n", "// +build linux", "// +builder windows\n", "// +build linux, \n", " \t\n", "// +build ignore\r\n", "\r\n", "// +build\n", "// +build ! linux\n"}
 	tagsets := []map[string]bool{{"linux": true, "amd64": true}, {"android": true, "arm64": true}, {"windows": true}, {}}
 	cases, nontrivial, fails := 0, 0, 0
 	first := ""
@@ -143,6 +143,8 @@ func TestVerifBoundedReadImports(t *testing.T) {
 	rec = func(k int, cur string) {
 		for _, tl := range tails {
 			check(cur + tl)
+			// the same file with CRLF line ends (carriage return is white space to the reader)
+			check(strings.ReplaceAll(cur+tl, "\n", "\r\n"))
 		}
 		if k == n {
 			return
